@@ -75,7 +75,7 @@ theorem C02_roundtrip_real (Y M D : Int) (hv : Civil.valid Y M D = true)
   · exact key 240 9998 t5 (by omega) (Or.inr (by omega)) (by omega)
 
 /-- the civil date of a day number lying between two January firsts has its year between them -/
-theorem year_of_jdn (j ya yb : Int) (hya : 1 ≤ ya) (hab : ya ≤ yb) (hyb : yb ≤ 9998) (h1 : jdn ya 1 1 ≤ j) (h2 : j < jdn (yb + 1) 1 1) :
+theorem jdn_year_range (j ya yb : Int) (hya : 1 ≤ ya) (hab : ya ≤ yb) (hyb : yb ≤ 9998) (h1 : jdn ya 1 1 ≤ j) (h2 : j < jdn (yb + 1) 1 1) :
     Civil.validT (ofJdn j) = true ∧ jdnT (ofJdn j) = j ∧ ya ≤ (ofJdn j).1 ∧ (ofJdn j).1 ≤ yb := by
   have j1 : jdn 1 1 1 = 1721424 := by decide
   have m1 := jan1_mono 1 ya (by omega) hya
@@ -119,7 +119,7 @@ theorem C02_lsl_total (E : Eph) (hl : ∀ y, E.leap y ≤ 12) (nf : NewYearFacts
   have s1 := jan1_step (x.y + 1) (by omega)
   have e2 : x.y - 1 + 1 = x.y := by omega
   rw [e2] at s0
-  obtain ⟨v, ej, y1, y2⟩ := year_of_jdn (first E x + k - 1) (x.y - 1) (x.y + 1) (by omega) (by omega) (by omega) (by omega) (by omega)
+  obtain ⟨v, ej, y1, y2⟩ := jdn_year_range (first E x + k - 1) (x.y - 1) (x.y + 1) (by omega) (by omega) (by omega) (by omega) (by omega)
   generalize hd : ofJdn (first E x + k - 1) = d at *
   obtain ⟨Y, M, D⟩ := d
   have hv : Civil.valid Y M D = true := v
